@@ -367,6 +367,95 @@ pub fn quiet_worker_panics() {
     }));
 }
 
+type Job = Box<dyn FnOnce() + Send + 'static>;
+
+enum Mail {
+    Idle,
+    Job(Job),
+    Busy,
+    Shutdown,
+}
+
+struct Mailbox {
+    mail: Mutex<Mail>,
+    cv: Condvar,
+}
+
+/// One parked OS thread that runs the worker jobs of successive executions.
+struct PoolWorker {
+    mb: Arc<Mailbox>,
+    join: Option<std::thread::JoinHandle<()>>,
+}
+
+impl PoolWorker {
+    fn spawn(k: usize) -> PoolWorker {
+        let mb = Arc::new(Mailbox {
+            mail: Mutex::new(Mail::Idle),
+            cv: Condvar::new(),
+        });
+        let mb2 = mb.clone();
+        let join = std::thread::Builder::new()
+            .name(format!("vthread-{k}"))
+            .stack_size(2 << 20)
+            .spawn(move || {
+                loop {
+                    let job = {
+                        let mut g = mb2.mail.lock();
+                        loop {
+                            match std::mem::replace(&mut *g, Mail::Busy) {
+                                Mail::Job(j) => break j,
+                                Mail::Shutdown => return,
+                                other => {
+                                    *g = other;
+                                    mb2.cv.wait(&mut g);
+                                }
+                            }
+                        }
+                    };
+                    job();
+                    *mb2.mail.lock() = Mail::Idle;
+                    mb2.cv.notify_all();
+                }
+            })
+            .unwrap_or_else(|e| crate::report::machinery(&format!("THREAD: cannot spawn worker: {e}")));
+        PoolWorker { mb, join: Some(join) }
+    }
+
+    fn submit(&self, job: Job) {
+        let mut g = self.mb.mail.lock();
+        debug_assert!(matches!(*g, Mail::Idle));
+        *g = Mail::Job(job);
+        self.mb.cv.notify_all();
+    }
+
+    fn wait_idle(&self) {
+        let mut g = self.mb.mail.lock();
+        while !matches!(*g, Mail::Idle) {
+            self.mb.cv.wait(&mut g);
+        }
+    }
+}
+
+impl Drop for PoolWorker {
+    fn drop(&mut self) {
+        {
+            let mut g = self.mb.mail.lock();
+            while !matches!(*g, Mail::Idle) {
+                self.mb.cv.wait(&mut g);
+            }
+            *g = Mail::Shutdown;
+            self.mb.cv.notify_all();
+        }
+        if let Some(j) = self.join.take() {
+            let _ = j.join();
+        }
+    }
+}
+
+thread_local! {
+    static POOL: std::cell::RefCell<Vec<PoolWorker>> = const { std::cell::RefCell::new(Vec::new()) };
+}
+
 /// Runs ONE execution: every body on its own OS thread, one thread at a time,
 /// the schedule decided by `chooser`.
 pub fn run_threads<'a, T: Send + 'a>(
@@ -422,51 +511,64 @@ pub fn run_threads_observed<'a, T: Send + 'a>(
     });
     let outputs: Vec<Mutex<Option<T>>> = (0..n).map(|_| Mutex::new(None)).collect();
 
-    std::thread::scope(|scope| {
+    // Workers come from a per-caller-thread pool of parked OS threads (thread
+    // creation would dominate the cost of an execution otherwise).
+    POOL.with(|pool| {
+        let mut pool = pool.borrow_mut();
+        while pool.len() < n {
+            let k = pool.len();
+            pool.push(PoolWorker::spawn(k));
+        }
         for (me, body) in bodies.into_iter().enumerate() {
             let shared = shared.clone();
             let out = &outputs[me];
-            std::thread::Builder::new()
-                .name(format!("vthread-{me}"))
-                .stack_size(1 << 20)
-                .spawn_scoped(scope, move || {
-                    let handle = Arc::new(Handle { shared, me });
-                    install_scheduler(Some(handle.clone() as Arc<dyn Scheduler>));
-                    let r = catch_unwind(AssertUnwindSafe(|| {
-                        handle.park(St::AtPoint, START, None);
-                        body()
-                    }));
-                    install_scheduler(None);
-                    let mut panic = None;
-                    match r {
-                        Ok(v) => *out.lock() = Some(v),
-                        Err(p) => {
-                            if !p.is::<AbortExecution>() {
-                                panic = Some(panic_message(&*p));
-                            }
+            let job: Box<dyn FnOnce() + Send + '_> = Box::new(move || {
+                let handle = Arc::new(Handle { shared, me });
+                install_scheduler(Some(handle.clone() as Arc<dyn Scheduler>));
+                let r = catch_unwind(AssertUnwindSafe(|| {
+                    handle.park(St::AtPoint, START, None);
+                    body()
+                }));
+                install_scheduler(None);
+                let mut panic = None;
+                match r {
+                    Ok(v) => *out.lock() = Some(v),
+                    Err(p) => {
+                        if !p.is::<AbortExecution>() {
+                            panic = Some(panic_message(&*p));
                         }
                     }
-                    handle.finish(panic);
-                })
-                .unwrap_or_else(|e| crate::report::machinery(&format!("THREAD: cannot spawn worker: {e}")));
+                }
+                handle.finish(panic);
+            });
+            // Safety (lifetime erasure): this function does not return before
+            // every job has returned (`wait_idle` below), so everything the
+            // job borrows outlives it.
+            let job: Job = unsafe { std::mem::transmute::<Box<dyn FnOnce() + Send + '_>, Job>(job) };
+            pool[me].submit(job);
         }
 
         // The caller only waits; the watchdog fires when no worker parks or
         // finishes for `cfg.watchdog`.
-        let mut g = shared.state.lock();
-        let mut seen = g.progress;
-        while !g.done {
-            if shared.ctl.wait_for(&mut g, cfg.watchdog).timed_out() && !g.done {
-                if g.progress == seen {
-                    crate::report::machinery(&format!(
-                        "THREAD watchdog: worker {:?} neither parked nor finished within {:?}; trace so far: {}",
-                        g.running,
-                        cfg.watchdog,
-                        render_trace(&g.trace)
-                    ));
+        {
+            let mut g = shared.state.lock();
+            let mut seen = g.progress;
+            while !g.done {
+                if shared.ctl.wait_for(&mut g, cfg.watchdog).timed_out() && !g.done {
+                    if g.progress == seen {
+                        crate::report::machinery(&format!(
+                            "THREAD watchdog: worker {:?} neither parked nor finished within {:?}; trace so far: {}",
+                            g.running,
+                            cfg.watchdog,
+                            render_trace(&g.trace)
+                        ));
+                    }
+                    seen = g.progress;
                 }
-                seen = g.progress;
             }
+        }
+        for w in pool.iter().take(n) {
+            w.wait_idle();
         }
     });
 
